@@ -306,7 +306,12 @@ def one_round_trip(ctx, spec, meta, fmt, site, extra, ops, pre_ops, n_hostile, r
     for a in cells:
         g = wb.outcome(L.evaluate, a)
         ctx.count('value_compares')
-        if not wb.same_outcome(g, want[a]):
+        # (texts are compared with the numbers in them read numerically - computed values carry float noise of
+        #  the summation order - except constants, which must come back character by character)
+        constant_text = (not wb.is_formula(wb.spec_cells(spec).get(a)) and a not in wb.array_members(spec) and
+                         want[a][0] == 'v' and isinstance(want[a][1], str) and g[0] == 'v' and
+                         isinstance(g[1], str))
+        if (g[1] != want[a][1]) if constant_text else not wb.same_outcome(g, want[a]):
             bad('value-differs-after-load', f'evaluate({a!r}) = {g!r} on the loaded model, original {want[a]!r}',
                 cell=a, want=want[a])
             return
